@@ -15,7 +15,7 @@ SPEC = {
     "C01": {
         "module": "LV.Channel.Props_C01",
         "targets": ["theories/Channel/Props_C01.vo", "theories/Channel/Exec.vo",
-                    "theories/Channel/Examples.vo"],
+                    "theories/Channel/Examples.vo", "theories/Channel/GenBridge.vo"],
         "theorems": ["C01_conservation", "C01_conservation_inflight", "C01_conservation_cut",
                      "C01_balance_formula", "C01_agreement", "C01_mirror_at_quiescence",
                      "C01_window", "C01_wf_reachable", "C01_wf_only_money",
@@ -28,7 +28,8 @@ SPEC = {
     },
     "C02": {
         "module": "LV.Channel.Props_C02",
-        "targets": ["theories/Channel/Props_C02.vo", "theories/Channel/Exec.vo"],
+        "targets": ["theories/Channel/Props_C02.vo", "theories/Channel/Exec.vo",
+                    "theories/Channel/GenBridge.vo"],
         "theorems": ["C02_restore_idempotent", "C02_restore_keeps_signed",
                      "C02_revoke_advances_tail", "C02_tail_height_monotone",
                      "C02_restore_keeps_tail"],
@@ -40,7 +41,8 @@ SPEC = {
     # release-rule half of C06, decided on real channels (called from props/c06.py)
     "C06": {
         "module": "LV.Channel.Props_C02",
-        "targets": ["theories/Channel/Props_C02.vo", "theories/Channel/Exec.vo"],
+        "targets": ["theories/Channel/Props_C02.vo", "theories/Channel/Exec.vo",
+                    "theories/Channel/GenBridge.vo"],
         "theorems": ["C02_revoke_advances_tail", "C02_tail_height_monotone",
                      "C02_restore_keeps_tail", "C02_restore_keeps_signed"],
         "env": {"VERIF_CRASH": "1", "VERIF_CUT": "1"},
@@ -50,7 +52,7 @@ SPEC = {
     "C03": {
         "module": "LV.Channel.Props_C03",
         "targets": ["theories/Channel/Props_C03.vo", "theories/Channel/Exec.vo",
-                    "theories/Channel/ResyncExamples.vo"],
+                    "theories/Channel/ResyncExamples.vo", "theories/Channel/GenBridge.vo"],
         "theorems": ["C03_no_sync_error", "C03_no_sync_error_free", "C03_xinv_reachable",
                      "C03_resync_xinv", "C03_resync_inv", "C03_agreement_after_resync",
                      "C03_cut_refusal_is_money", "C03_free_rev_refuted"],
